@@ -9,6 +9,13 @@ rationals, certifies the eigen-frame, and the results are compared (tensor, cert
 Oracle: a direct Python statement of the property on the implementation's outputs (distances, centre
 of mass, diagonal ascending inertia, sign convention, untouched fields, rigid copies, double
 orientation), with tolerances derived from the documented geometry rounding.
+
+Position in space: every case is also oriented from a FAR rigid copy (fresh rotation, translation of
+10^2.5 .. 10^6.5 bohr: axis-aligned, diagonal or generic direction), and ~15% of the cases have the
+primary molecule itself far from the origin.  There the doubles of the input still resolve the
+geometry far below the 1e-8 rounding (ulp(3e6) = 4.7e-10), so the property demands the same oriented
+coordinates; the only extra allowance is the floating-point resolution of the input, 4e-15 * (1 + max|x|),
+propagated through the same first-order perturbation bound as every other input displacement.
 """
 from __future__ import annotations
 
@@ -69,14 +76,20 @@ ASSUMPTIONS = [
     "theorems are over exact fields: orthogonality and diagonalisation of V are hypotheses, certified per call to ~1e-15; floating-point error of the implementation is covered by the correspondence tolerances only",
     "uniqueness claims (rigid copies, double orientation) are demanded for asymmetric tops with relative gaps between consecutive moments >= 1e-3; eigen-frame uniqueness is proved (eigframe_unique / eigvals_unique) for EXACT certificates with pairwise distinct moments and used in orient_rigid_invariant / orient_idempotent; a quantitative (perturbation) version for the ~1e-15 certified residuals is not proved",
     "'within the geometry rounding' = float_prep as implemented: rounding to 1e-8 and flushing |x| < 5^-9 = 5.12e-7 to zero",
+    "rigid motions: integer-quaternion rotations x rational translations of up to 40 bohr (near copy) and of 10^2.5..10^6.5 bohr (far copy / far primary); "
+    "longer translations are not generated: a floating-point allowance of 4e-15*(1+max|input coordinate|) bohr per coordinate (18 ulp of the input; "
+    "(2n+1) roundings of the weighted mean at n = 12 are 2.8e-15) is granted to the implementation, and beyond ~3e6 bohr that allowance itself exceeds the 1e-8 rounding",
 ]
 RULE = (
     "case = (shape class, symbols, masses mode [default | isotopes via mass_numbers | user masses | nonphysical masses], ghosts, "
     "geometry as exact doubles, non-geometric fields, integer quaternion + rational translation, entry path ctor/method/from_data); "
     "shapes: asymmetric (jittered lattice, 1-12 atoms), linear, planar, symmetric/spherical tops (C3..C6 rings, tetrahedral, octahedral), "
-    "near-degenerate tops, and 'band' molecules with an early atom 2e-9..1e-4 bohr off a principal plane; each case yields 4 orientation "
-    "calls (primary, geometry_noise=14, second pass, rigid copy), each a model line. Distinct by (shape, n, masses mode, path, quaternion, "
-    "decider pattern); non-trivial when n >= 2."
+    "near-degenerate tops, and 'band' molecules with an early atom 2e-9..1e-4 bohr off a principal plane; each case yields 5 orientation "
+    "calls (primary, geometry_noise=14, second pass, near rigid copy, FAR rigid copy), each a model line. The far copy uses a second integer "
+    "quaternion and a translation of log-uniform length 10^2.5..10^6.5 bohr (axis-aligned | diagonal | generic direction, integer or k/3, k/7, k/8 "
+    "components), and ~15% of the cases place the primary itself that far out (so second pass, sign convention and both copies start from a "
+    "far input); every claim (distances, centre of mass, diagonal ascending inertia, same coordinates as the primary) is demanded of the far "
+    "copy. Distinct by (shape, n, masses mode, path, quaternion, decider pattern, decade of the far translation, far primary); non-trivial when n >= 2."
 )
 LEVEL_TEXT = (
     "proof (partial): centring, isometry, tensor transformation law, diagonal tensor with the certified eigenvalues as moments, the exact "
@@ -334,7 +347,36 @@ def gen_case(rng, shape):
             q0 = [2, 1, 1, -1]
         pts = rigid(pts, q0, ["%d/4" % rng.randint(-8, 8) for _ in range(3)])
     path = rng.choice(["ctor", "ctor", "method", "from_data"])
-    return {"shape": shape, "kw": kw, "geometry": [[float(v) for v in p] for p in pts], "quat": q, "trans": t, "path": path}
+    # position in space: a far rigid copy for every case, and sometimes a far primary
+    qf = [rng.randint(-6, 6) for _ in range(4)]
+    if not any(qf) or rng.random() < 0.15:
+        qf = rng.choice([[1, 0, 0, 0], [1, 0, 0, 0], [0, 0, 1, 0], [1, 1, 0, 0], [1, -1, 1, 1]])
+    tf = far_trans(rng)
+    if rng.random() < 0.15:
+        pts = rigid(pts, [1, 0, 0, 0], far_trans(rng))
+    return {"shape": shape, "kw": kw, "geometry": [[float(v) for v in p] for p in pts], "quat": q, "trans": t, "path": path,
+            "quat_far": qf, "trans_far": tf}
+
+
+def far_trans(rng):
+    """translation of log-uniform length 10^2.5 .. 10^6.5 bohr as exact rationals (strings)"""
+    mag = 10.0 ** rng.uniform(2.5, 6.5)
+    mode = rng.choice(["axis", "diag", "generic", "generic"])
+    if mode == "axis":
+        comps = [0.0, 0.0, 0.0]
+        comps[rng.randrange(3)] = mag * rng.choice([-1, 1])
+    elif mode == "diag":
+        comps = [mag * rng.choice([-1, 1]) for _ in range(3)]
+    else:
+        v = [rng.uniform(-1, 1) for _ in range(3)]
+        top = max(abs(x) for x in v) or 1.0
+        comps = [mag * x / top for x in v]
+    den = rng.choice([1, 1, 3, 7, 8])
+    return ["%d/%d" % (int(round(c * den)), den) for c in comps]
+
+
+def trans_len(t):
+    return max(abs(float(Fr(s))) for s in t)
 
 
 SHAPES = ["asym"] * 8 + ["planar"] * 3 + ["linear"] * 2 + ["symtop"] * 3 + ["neardeg"] * 2 + ["band"] * 4
@@ -437,7 +479,9 @@ def base_claims(tag, m, G, out, d):
     n = len(m)
     M = m.sum()
     c = (m[:, None] * G).sum(0) / M
-    L = float(np.abs(G - c).max()) if n else 0.0
+    # floating-point allowance: 4e-15 * (1 + size of the numbers the implementation had to work with), i.e. of the input
+    # coordinates themselves (far-away molecules) as well as of the centred ones
+    L = max(float(np.abs(G - c).max()), float(np.abs(G).max())) if n else 0.0
     e = coord_err(out, d, L)
     # distances
     for i in range(n):
@@ -548,6 +592,10 @@ def tie_call(tag, d, masses, gin, call, out_geom, line):
     m = np.asarray(masses, dtype=float)
     c = (m[:, None] * gin).sum(0) / m.sum()
     L = float(np.abs(gin - c).max())
+    # floating-point window (bohr) on any oriented coordinate: as before relative to the extent of the molecule, and never less
+    # than 18 ulp of the input coordinates themselves (molecules far from the origin: the centre of mass carries that error)
+    fpw = max(1e-12 * (1.0 + L), 4e-15 * (1.0 + float(np.abs(gin).max())))
+    fpY = fpw * 1e20
     scale = float(np.sum(m * ((gin - c) ** 2).sum(1))) + 1.0
     # tensor handed to eigh
     Tmod = [x / 1e12 for x in Tm]
@@ -570,7 +618,7 @@ def tie_call(tag, d, masses, gin, call, out_geom, line):
         dec = int(S[3 + col])
         last = dec if dec >= 0 else n - 1
         for i in range(last + 1):
-            if abs(abs(Y[3 * i + col]) - 10**12) < 10**8 * (1.0 + L):  # | |y| - 1e-8 | < 1e-12 (1+L)
+            if abs(abs(Y[3 * i + col]) - 10**12) < fpY:  # | |y| - 1e-8 | < fpw = 1e-12 (1+L) for molecules near the origin
                 knife = True
     if knife:
         return bad, True
@@ -579,7 +627,14 @@ def tie_call(tag, d, masses, gin, call, out_geom, line):
         for i in range(n):
             for col in range(3):
                 y12 = Y[3 * i + col] % 10**12  # fractional part of y*1e8 in units of 1e-12
-                if abs(y12 - 5 * 10**11) < 10**8 * (1.0 + L):  # rounding tie within 1e-4 (1+L) units
+                if abs(y12 - 5 * 10**11) < fpY or fpY >= 2.5e11:
+                    # rounding tie within the floating-point window (1e-4 (1+L) units near the origin), or an input so far away
+                    # that the window is a sizeable part of a unit: the rounded value is not determined, compare with tolerance
+                    y = Y[3 * i + col] / 1e20
+                    o = float(out[i, col])
+                    if not (abs(o - y) <= 0.5e-8 + fpw + 1e-20 or (o == 0.0 and abs(y) < FLUSH8 + 1e-8 + fpw)):
+                        bad.append(("mismatch:geometry", f"{tag}: atom {i} column {col}: implementation {o!r}, model exact {y!r} (window {fpw:.1e})"))
+                        return bad, False
                     continue
                 exp = K[3 * i + col] / 1e8
                 if float(out[i, col]) != exp:
@@ -592,7 +647,8 @@ def tie_call(tag, d, masses, gin, call, out_geom, line):
             for col in range(3):
                 y = Y[3 * i + col] / 1e20
                 o = float(out[i, col])
-                ok = abs(o - y) <= half + 1e-20 + 4e-15 * (1 + L) or (o == 0.0 and abs(y) < flush + 2 * half + 4e-15 * (1 + L))
+                f14 = 4e-15 * (1.0 + max(L, float(np.abs(gin).max())))
+                ok = abs(o - y) <= half + 1e-20 + f14 or (o == 0.0 and abs(y) < flush + 2 * half + f14)
                 if not ok:
                     bad.append(("mismatch:geometry", f"{tag}: atom {i} column {col}: implementation {o!r}, model exact {y!r} (geometry_noise={d})"))
                     return bad, False
@@ -650,6 +706,11 @@ def run_case(ctx, out: Outcome, case, use_model=True):
         Gr = np.array(rigid(G0, case["quat"], case["trans"]), dtype=float)
         ginr, _, molR = do("rigid", path, build_kwargs(case, Gr))
         OR = np.array(molR.geometry, dtype=float)
+        Gf = ginf = OF = None
+        if case.get("trans_far"):
+            Gf = np.array(rigid(G0, case["quat_far"], case["trans_far"]), dtype=float)
+            ginf, _, molF = do("far", path, build_kwargs(case, Gf))
+            OF = np.array(molF.geometry, dtype=float)
     except Exception as e:
         V("oracle:raises", f"orientation of a validated molecule raised {type(e).__name__}: {e}")
         out.violations += findings_v
@@ -669,7 +730,21 @@ def run_case(ctx, out: Outcome, case, use_model=True):
         V("oracle:fields", "masses of the oriented molecule differ from the masses of the unoriented one")
         m = mb
     # --- base claims on every output
-    for tag, Gin, Out, d in (("primary", gin, O, 8), ("hires", gin, H, 14), ("second", O, O2, 8), ("rigid", ginr, OR, 8)):
+    outs = [("primary", gin, O, 8), ("hires", gin, H, 14), ("second", O, O2, 8), ("rigid", ginr, OR, 8)]
+    far_primary = float(np.abs(G0).max()) >= 300.0
+    if far_primary:
+        out.count("far_primary")
+        out.count("far_primary:|x|~1e%d" % int(math.floor(math.log10(float(np.abs(G0).max())))))
+    fdec = None
+    if OF is not None:
+        fdec = int(math.floor(math.log10(trans_len(case["trans_far"]))))
+        out.count("far_copy")
+        out.count("far_copy:|t|~1e%d" % fdec)
+        outs.append(("far copy (|t| = %.1e bohr)" % trans_len(case["trans_far"]), ginf, OF, 8))
+        diffsF = cmp_dicts(base.dict(), molF.dict())
+        if diffsF:
+            V("oracle:fields", f"fields changed by orientation of the far copy: {diffsF}")
+    for tag, Gin, Out, d in outs:
         for clause, msg in base_claims(tag, m, Gin, Out, d):
             V("oracle:" + clause, msg)
     # --- sign convention
@@ -744,20 +819,37 @@ def run_case(ctx, out: Outcome, case, use_model=True):
         def round_term(P, Q):
             return np.where((P == 0.0) != (Q == 0.0), FLUSH8 + 1e-8, 1e-8) + 1e-10
 
-        # rigid copy: the two inputs are exact rigid images up to the rounding of their doubles (ctor/from_data) or up to
-        # the float_prep applied when the unoriented molecule was built (method path)
-        rA = np.sqrt(((gin - G0) ** 2).sum(1)) + fl
-        rB = np.sqrt(((ginr - Gr) ** 2).sum(1)) + fl
-        tolR = perturb_bounds(np.repeat((rA + rB)[:, None], 3, axis=1))
-        if decisions_stable(perturb_bounds(np.repeat(rA[:, None], 3, axis=1))) and decisions_stable(perturb_bounds(np.repeat(rB[:, None], 3, axis=1))):
-            out.count("rigid_copy_checked")
-            lim = tolR + round_term(O, OR)
-            if np.any(np.abs(O - OR) > lim):
-                i, c = np.unravel_index(np.argmax(np.abs(O - OR) - lim), O.shape)
-                V("oracle:rigid_copy", f"oriented rigid copy differs: atom {i} column {c}: {O[i, c]!r} vs {OR[i, c]!r} (tol {lim[i, c]:.2e}; quat {case['quat']}, trans {case['trans']})")
-        else:
-            out.count("knife:rigid_copy")
-            out.count("knife:rigid_copy:%s:%s" % (path, shape))
+        # rigid copy: the two inputs are exact rigid images up to the rounding of their doubles (ctor/from_data: half an ulp of
+        # each coordinate of the image) or up to the float_prep applied when the unoriented molecule was built (method path);
+        # the implementation is granted 4e-15 * (1 + largest input coordinate) of floating-point error on top (see ASSUMPTIONS),
+        # and all of it is propagated like an input displacement (translation + first-order rotation of the eigen-frame)
+        def displacement(Gexact, Gseen, rounded):
+            r = np.sqrt(((Gseen - Gexact) ** 2).sum(1))
+            if rounded:
+                r = r + np.sqrt(((0.5 * np.spacing(np.abs(Gexact))) ** 2).sum(1))
+            return r + 4e-15 * (1.0 + max(L, float(np.abs(Gseen).max())))
+
+        rA = displacement(G0, gin, False)
+        stableA = decisions_stable(perturb_bounds(np.repeat(rA[:, None], 3, axis=1)))
+
+        def check_copy(label, counter, Gx, ginx, Ox, quat, trans):
+            rB = displacement(Gx, ginx, True)
+            tolR = perturb_bounds(np.repeat((rA + rB)[:, None], 3, axis=1))
+            if stableA and decisions_stable(perturb_bounds(np.repeat(rB[:, None], 3, axis=1))):
+                out.count(counter + "_checked")
+                lim = tolR + round_term(O, Ox)
+                if np.any(np.abs(O - Ox) > lim):
+                    i, c = np.unravel_index(np.argmax(np.abs(O - Ox) - lim), O.shape)
+                    V("oracle:rigid_copy", f"oriented {label} differs: atom {i} column {c}: {O[i, c]!r} vs {Ox[i, c]!r} (tol {lim[i, c]:.2e}; quat {quat}, trans {trans})")
+                return True
+            out.count("knife:" + counter)
+            out.count("knife:%s:%s:%s" % (counter, path, shape))
+            return False
+
+        check_copy("rigid copy", "rigid_copy", Gr, ginr, OR, case["quat"], case["trans"])
+        if OF is not None:
+            if check_copy("far rigid copy", "far_copy", Gf, ginf, OF, case["quat_far"], case["trans_far"]):
+                out.count("far_copy_checked:|t|~1e%d" % fdec)
         # double orientation: the second pass re-orients the *rounded* geometry O = H + (O - H)
         E2 = np.abs(O - H) + np.where(H == 0.0, 5.0 ** -15, 0.0) + 1e-14 + fl
         tol2 = perturb_bounds(E2)
@@ -778,7 +870,7 @@ def run_case(ctx, out: Outcome, case, use_model=True):
             out.count("knife:idempotence:%s:%s" % (path, shape))
     # --- bookkeeping
     if len(m) >= 2:
-        out.nontrivial((shape, len(m), mode, path, tuple(case["quat"]), "".join(dkey)))
+        out.nontrivial((shape, len(m), mode, path, tuple(case["quat"]), "".join(dkey), fdec, far_primary))
     out.sample({"shape": shape, "class": cls, "n": len(m), "path": path, "masses": mode, "rel_gaps": ["%.2e" % g for g in gaps], "deciders": dkey, "oriented_first_row": O[0].tolist()})
     # --- correspondence
     if use_model and ctx.model_available:
@@ -862,6 +954,10 @@ def run(ctx: Ctx) -> Outcome:
         zero_mass_stream(ctx, out)
     out.exhaustive = False
     out.notes.append("largest eigen-frame certificate residuals this run (exact rational evaluation): max|VtV-1|,|VVt-1| = %.3e; max|VtTV-diag(l)|/scale = %.3e (limits 1e-13, 1e-12)" % (_CERT["orth"], _CERT["diag_rel"]))
+    c = out.distribution
+    out.notes.append("position in space: every case is also oriented from a far rigid copy (second rotation, |t| log-uniform in 10^2.5..10^6.5 bohr) and ~15%% of the "
+                     "primaries are themselves that far from the origin; all base claims are demanded of the far copy and, for asymmetric tops, equality with the "
+                     "primary within rounding + 4e-15*(1+max|x|) propagated to first order (far copies compared this run: %s; far primaries: %s)" % (c.get("far_copy_checked", "n/a"), c.get("far_primary", "n/a")))
     out.notes.append("all cases sampled from VERIF_SEED; tolerances: see coord_err / tie_call; knife-edge inputs (value within 1e-12 of the 1e-8 threshold or within 1e-4 units of a rounding tie) are skipped and counted")
     return out
 
